@@ -355,3 +355,25 @@ CHECKS["C09"] = NS(
     ASSUMPTIONS=["real device moves are impossible (CPU only)", "histories whose float model is not finite on the probe batch are discarded"],
     PLAN={"quick": [("lifecycle", 16, {"n": 100})], "thorough": [("lifecycle", 16, {"n": 4000})]},
 )
+
+CHECKS["C10"] = NS(
+    MODULE="c10_serial",
+    LEVEL="exploration",
+    LEVEL_TEXT=(
+        "Model-based testing of save/load histories: Hypothesis draws a runnable model (in_features chosen so that automatic group sizes "
+        "32/64/96/128/none all occur), a configuration (6 weight qtypes x 4 activation settings x 3 dtypes), optional calibration "
+        "(streamlining on/off), frozen or not, and 1-3 cycles of (serializer in pickle / weights_only / safetensors, target in "
+        "same-quantized / default-quantized / requantize()). Oracles per cycle: state_dict values are exactly torch.Tensor or str; the "
+        "serializer returns the same keys, strings and bitwise-equal tensors; after loading every quantized module has equal qtypes, "
+        "weight class, codes, scales, zero-points, group size, activation scales and float weights; outputs on a probe batch are "
+        "bit-identical; saving again gives an equal state_dict. Exploration."
+    ),
+    LEVEL_NOTE="bitwise comparisons throughout; CPU only; the three serializers are the real ones (torch.save/load, safetensors through quanto's safe_save/safe_load)",
+    TECHNIQUE=PBT + "stateful generation of save/load histories; round-trip equality and bitwise output oracles",
+    RULE=(
+        "Hypothesis histories as above. Non-trivial: a low-bit grouped or float8 weight, or LayerNorm with activations, or an unfrozen save, "
+        "or >= 2 cycles. Distinct by (model recipe, configuration, calibration, frozen, cycle list)."
+    ),
+    ASSUMPTIONS=["CPU only: 'on the device of the target model' is checked for cpu", "memory-format changes (channels_last) are not part of these histories (safetensors refuses non-contiguous tensors of any model)"],
+    PLAN={"quick": [("cycles", 16, {"n": 100})], "thorough": [("cycles", 16, {"n": 4000})]},
+)
